@@ -137,7 +137,8 @@ def checks(ctx, rep):
                 stats["neigh_truncated"] += len(X) < n
                 # ---- the reference point of the selection is the CURRENT incumbent (not whatever point the caller handed over) ----
                 # (checked at the first selection after a poll step: within a round of searches the centre deliberately stays where the round began)
-                if e.get("u_best") is not None and e["phase"] in ("search", "poll") and after_poll:
+                # ... and at EVERY selection made inside a poll step (the incumbent does not move before the poll step ends)
+                if e.get("u_best") is not None and ((e["phase"] in ("search", "poll") and after_poll) or e["phase"] == "poll"):
                     after_poll = False
                     stats["ref_point_checked"] = stats.get("ref_point_checked", 0) + 1
                     if e["u_best"] != e["u"]:
